@@ -178,3 +178,47 @@ func freshTerm(r *Term, store map[string]Value) *Term {
 	}
 	return And(out...)
 }
+
+// atomicCall: methods of sync/atomic.Uint64 & co. on an addressable variable; in the single-threaded model
+// (A1) Load reads it, Store/Swap/Add/CompareAndSwap write it.
+func (c *Ctx) atomicCall(o *types.Func, sel *ast.SelectorExpr, e *ast.CallExpr) (Value, bool) {
+	sig, ok := o.Type().(*types.Signature)
+	if !ok || sig.Recv() == nil {
+		return Value{}, false
+	}
+	et, ok := atomicElem(pointee(sig.Recv().Type()))
+	if !ok {
+		return Value{}, false
+	}
+	x := c.x
+	cur := c.eval(sel.X)
+	cur.T = et
+	switch o.Name() {
+	case "Load":
+		x.valueFacts(cur)
+		return cur, true
+	case "Store":
+		v := c.coerce(c.eval(e.Args[0]), et)
+		v.T = c.typeOf(sel.X)
+		x.assign(c, sel.X, v)
+		return Value{Kind: KNone}, true
+	case "Swap":
+		v := c.coerce(c.eval(e.Args[0]), et)
+		v.T = c.typeOf(sel.X)
+		x.assign(c, sel.X, v)
+		return cur, true
+	case "Add":
+		d := c.eval(e.Args[0])
+		r := wrapTo(Add(cur.S, d.S), et)
+		nv := Scalar(r, c.typeOf(sel.X))
+		x.assign(c, sel.X, nv)
+		return Scalar(r, et), true
+	case "CompareAndSwap":
+		old := c.eval(e.Args[0])
+		nw := c.eval(e.Args[1])
+		hit := Eq(cur.S, old.S)
+		x.assign(c, sel.X, Scalar(Ite(hit, nw.S, cur.S), c.typeOf(sel.X)))
+		return Scalar(hit, types.Typ[types.Bool]), true
+	}
+	return Value{}, false
+}
